@@ -10,6 +10,7 @@
 """
 import itertools
 import json
+import numpy as np
 import random
 import sys
 
@@ -69,8 +70,42 @@ EXPECTED_ERR = {"functional": "ValueError", "level0": "ValueError", "level1": "V
                 "wquantile": "NotImplementedError", "wmedian": "NotImplementedError"}
 
 
+FLAGS = {"np.False_": np.False_, "np.True_": np.True_, "0": 0, "1": 1, "False": False, "True": True}
+
+
+def observe(d):
+    """the call the case describes: plain, with exotic dtypes, with the direction flag given as numpy bool / int, or
+    through the estimator class re-parameterised via its public attributes"""
+    if d.get("y_dtype") or d.get("w_dtype"):
+        return iso.run_impl_dtypes(d["y"], d["w"], d["inc"], d["functional"], d["level"], d.get("y_dtype", "ndarray"), d.get("w_dtype", "ndarray"))
+    if d.get("increasing_given_as") is not None:
+        from model_diagnostics._utils.isotonic import isotonic_regression as _ir
+        try:
+            x_, r_ = _ir(np.asarray(d["y"], dtype=float), None if d["w"] is None else np.asarray(d["w"], dtype=float),
+                         increasing=FLAGS[d["increasing_given_as"]], functional=d["functional"], level=d["level"])
+            return ("ok", [float(v) for v in x_], [int(k) for k in r_])
+        except Exception as e:  # noqa: BLE001
+            return ("Other", type(e).__name__)
+    if d.get("via") == "estimator":
+        # IsotonicRegression built with OTHER hyper-parameters, fitted once, re-parameterised through its public attributes
+        # (fit reads them at fit time), then fitted on X = 0..n-1: the predictions at X are the fit of the sequence
+        from model_diagnostics._utils.isotonic import IsotonicRegression
+        try:
+            m = IsotonicRegression(increasing=not d["inc"], functional="mean", level=0.5)
+            m.fit([0.0, 1.0, 2.0], [1.0, 0.0, 2.0])
+            m.increasing, m.functional, m.level = d["inc"], d["functional"], d["level"]
+            X = np.arange(len(d["y"]), dtype=float)
+            m.fit(X, np.asarray(d["y"], dtype=float), None if d["w"] is None else np.asarray(d["w"], dtype=float))
+            x_ = [float(v) for v in m.predict(X)]
+            r_ = [0] + [i for i in range(1, len(x_)) if x_[i] != x_[i - 1]] + [len(x_)]
+            return ("ok", x_, r_)
+        except Exception as e:  # noqa: BLE001
+            return ("Other", type(e).__name__)
+    return iso.run_impl(d["y"], d["w"], d["inc"], d["functional"], d["level"])
+
+
 def judge_case(d):
-    obs = iso.run_impl(d["y"], d["w"], d["inc"], d["functional"], d["level"])
+    obs = observe(d)
     if d.get("kind"):
         want = EXPECTED_ERR[d["kind"]]
         return ([] if obs[0] == want else [f"expected {want}, observed {obs[0]}"]), obs
@@ -177,6 +212,18 @@ def main():
                 bad = judge.judge_iso(yv, None, inc, fn, lvl, obs)
                 if bad:
                     found.append(dict(case=dict(y=yv, w=None, inc=inc, functional=fn, level=lvl, increasing_given_as=repr(flag)), clauses=bad, observed=obs))
+        # the same fit through the estimator class, re-parameterised after construction
+        for fn in fset:
+            for inc in (True, False):
+                for yv, wv in (([2.0, 0.0, 1.0, 4.0, 3.0], None), ([1.0, 3.0, 2.0, 2.0, 0.0, 5.0], [1.0, 2.0, 1.0, 3.0, 1.0, 2.0])):
+                    if found or (wv is not None and fn in ("median", "quantile")):
+                        continue
+                    tried += 1
+                    d = dict(y=yv if inc else yv[::-1], w=wv if (wv is None or inc) else wv[::-1], inc=inc, functional=fn,
+                             level=0.5 if fn in ("mean", "median") else 0.3, via="estimator")
+                    bad, obs = judge_case(d)
+                    if bad:
+                        found.append(dict(case=d, clauses=bad, observed=obs))
         rng = random.Random(seed)
         while not found and tried < budget:
             d = iso.gen_case(rng, 14)
